@@ -196,7 +196,9 @@ def run_case(case):
     amps, res = [], []
     for o in offs:
         w = run(angle=thc + side * o)
-        amps.append(float(np.max(np.abs(w))))
+        # the *sampled* maximum of a pulse with a cusp depends on where the samples fall (up to a third at dt = 20 ps): the peak
+        # compared between angles is the largest sampled value over four placements of the shower time within one sample
+        amps.append(max(float(np.max(np.abs(w))), *[float(np.max(np.abs(run(angle=thc + side * o, t_0=t0 + q_ * dt)))) for q_ in (0.25, 0.5, 0.75)]))
         res.append(rmsdur(w))
     decided_pairs, unresolved = 0, 0
     for i in range(len(offs) - 1):
